@@ -730,6 +730,15 @@ class CoreMixin:
                         # descriptor protocol: type(cv).__get__(cv, instance, owner)
                         return self.call(self.bind_method(cv, getter, getter.cls, site),
                                          [inst, self.class_node(ci)], {}, st, fr, site)
+                if inst is not None and cv.op == "Call" and cv.args and cv.args[0].op == "Ext" and \
+                        cv.args[0].attr == "functools.partialmethod" and len(cv.args) >= 2:
+                    # name = partialmethod(f, *a, **k): obj.name(*b) is f(obj, *a, *b, **k)
+                    npos, kwn = cv.attr[1], cv.attr[2]
+                    f_ = cv.args[1]
+                    bound = self.mk("BoundMethod", (inst, f_), None, site) if f_.op in ("Func", "Closure") else f_
+                    ppos = list(cv.args[2:1 + npos])
+                    pkw = dict(zip(kwn, cv.args[1 + npos:]))
+                    return self.call_ext(self.ext("functools.partial"), [bound] + ppos, pkw, st, fr, site)
                 if inst is not None and cv.op in ("Func", "Closure"):
                     # a function stored in the class body is a method: bound when reached through an instance
                     return self.mk("BoundMethod", (inst, cv), None, site)
